@@ -213,6 +213,28 @@ def jump_cycle(n=2, times=2, max_jumps=None, level="wf"):
     return Workload(f"jump_cycle{n}_t{times}_m{max_jumps}_{level}", st, wf_ctx=wctx)
 
 
+def jump_partial_outputs(times=1):
+    """A -> B -> C(jumps to A, publishing `partial` and `why` only in the iterations it abandons) -> Z ;
+    B's second task of two publishes after the first, so a re-run must also start from clean outputs."""
+    mk = lambda r: [("t", {"kind": "ok", "out": _loop_out(r, "A")})]  # noqa: E731
+    return Workload(
+        f"jump_partial_t{times}",
+        [St("A", tasks=mk("A")), St("B", ("A",), tasks=mk("B")),
+         St("C", ("B",), tasks=[("t", {"kind": "jump", "target": "A", "times": times, "out": _loop_out("C", "A"),
+                                       "jump_out": {"partial": ("wrap", "it"), "why": ("const", "retry")}})]),
+         St("Z", ("C",), tasks=mk("Z"))],
+    )
+
+
+def jump_self_partial(times=1):
+    return Workload(
+        f"jump_self_partial_t{times}",
+        [St("A", tasks=[("t", {"kind": "jump", "target": "A", "times": times, "out": _loop_out("A", "A"),
+                               "jump_out": {"partial": ("iter",)}})]),
+         St("Z", ("A",), tasks=[("t", {"kind": "ok", "out": _loop_out("Z", "A")})])],
+    )
+
+
 def jump_side_fanin(times=1, max_jumps=None):
     """P -> A -> B -> C(jumps to A); side branch P -> S ; J joins (C, S)."""
     wctx = {} if max_jumps is None else {"_max_jumps": max_jumps}
